@@ -3811,10 +3811,18 @@ impl G {
           )
         } else {
           let order = self.rng.chance(1, 2);
-          let rr = hull(base.r, radd(base.r, (e.r.0.min(0) * fmax, e.r.1.max(0) * fmax)));
           let call = format!("{cname}.{name}(fuel - 1, {})", ax.s);
-          let comb = if order { format!("{call} + {}", par(&e)) } else { format!("{} + {call}", par(&e)) };
-          (format!("function {name}(fuel: int, x: int): int = if fuel <= 0 {{ {} }} else {{ {comb} }}", base.s), rr)
+          if self.rng.chance(1, 4) {
+            // the self call is the last statement of the branch but its result is discarded: not a tail call
+            let v = if self.rng.chance(1, 2) { lit(self.rng.below(201) as i64 - 100) } else { par(&e) };
+            let vr = hull((-100, 100), e.r);
+            self.feat("discarded-self-call");
+            (format!("function {name}(fuel: int, x: int): int = if fuel <= 0 {{ {} }} else {{\nlet _ = {call};\n{v}\n}}", base.s), hull(base.r, vr))
+          } else {
+            let rr = hull(base.r, radd(base.r, (e.r.0.min(0) * fmax, e.r.1.max(0) * fmax)));
+            let comb = if order { format!("{call} + {}", par(&e)) } else { format!("{} + {call}", par(&e)) };
+            (format!("function {name}(fuel: int, x: int): int = if fuel <= 0 {{ {} }} else {{ {comb} }}", base.s), rr)
+          }
         };
         let (level, cost, pure) = self.end_fn();
         self.classes[ci].members.push(text);
